@@ -58,7 +58,10 @@ def is_nonlinear(t, _memo=None):
 
 
 FEAS_RLIMIT = 20000000     # z3 resource units per feasibility query: deterministic, independent of machine load
-FEAS_TIMEOUT_MS = 30000     # wall-clock backstop only
+FEAS_RLIMIT_NL = 3000000   # the same for the solver that also holds the nonlinear constraints
+FEAS_TIMEOUT_MS = 30000     # wall-clock backstop only (linear questions)
+FEAS_TIMEOUT_NL_MS = 2000   # nonlinear questions: z3's resource units track nlsat time poorly, so the wall clock also bounds them;
+                            # an undecided nonlinear question only admits an extra path, and a failure needs a satisfiable path condition
 
 
 class PathAbort(Exception):
@@ -351,12 +354,13 @@ class Engine(object):
             self.inputs = {}
             self.solver = z3.Solver()
             self.solver_full = z3.Solver()
-            for sv in (self.solver, self.solver_full):
+            for sv, rl in ((self.solver, FEAS_RLIMIT), (self.solver_full, FEAS_RLIMIT_NL)):
                 # a resource limit (deterministic, independent of machine load) bounds each feasibility query; the
-                # wall-clock limit is only a backstop
-                sv.set('timeout', FEAS_TIMEOUT_MS)
-                if FEAS_RLIMIT:
-                    sv.set('rlimit', FEAS_RLIMIT)
+                # wall-clock limit is only a backstop.  Nonlinear questions get the smaller limit: an undecided one only
+                # admits an extra path, and there can be thousands of them in a program
+                sv.set('timeout', FEAS_TIMEOUT_MS if sv is self.solver else FEAS_TIMEOUT_NL_MS)
+                if rl:
+                    sv.set('rlimit', rl)
             self.call_depth = 0
             self._fresh_path = {}
             n += 1
